@@ -346,3 +346,13 @@ Theorem C17_gen_current_route_path_is_url_minus_authority : forall c e rs rname 
   exists p, gen_current_route_path c e rs rname matched md gt els o kw = Ok p /\ u = host_part e o ++ p.
 Proof. exact gen_current_route_path_is_url_minus_authority. Qed.
 Print Assumptions C17_gen_current_route_path_is_url_minus_authority.
+
+(* one request object whose environment changes between calls: URL generation keeps no state on it (regenerated
+   fact url_helpers_keep_no_request_state), so its history cannot influence a later URL; a memoising request is refuted *)
+Theorem C17_request_history_irrelevant : forall hist e, quoted_script_name_h hist e = quoted_script_name e.
+Proof. exact request_history_irrelevant. Qed.
+Print Assumptions C17_request_history_irrelevant.
+
+Theorem C17_request_memo_refuted : exists hist e, quoted_script_name_frozen hist e <> quoted_script_name e.
+Proof. exact request_memo_refuted. Qed.
+Print Assumptions C17_request_memo_refuted.
